@@ -311,6 +311,33 @@ func (cr *caseRun) dataset(f *hdf5.File, d *hdf5.Dataset) {
 			_, err := d.ReadHyperslab(&hdf5.HyperslabSelection{Start: rowStart, Count: rowCount})
 			return err
 		})
+		// blocks: one block of 2 in the leading dimension, and one block of 2 x 2 in the last two dimensions
+		one := func() []uint64 {
+			o := make([]uint64, len(dims))
+			for i := range o {
+				o[i] = 1
+			}
+			return o
+		}
+		blk := func(which func(i int) bool) []uint64 {
+			b := one()
+			for i, n := range dims {
+				if which(i) && n >= 2 {
+					b[i] = 2
+				}
+			}
+			return b
+		}
+		b1 := blk(func(i int) bool { return i == 0 })
+		cr.guard("Dataset.ReadHyperslab(block lead)", func() error {
+			_, err := d.ReadHyperslab(&hdf5.HyperslabSelection{Start: make([]uint64, len(dims)), Count: one(), Stride: b1, Block: b1})
+			return err
+		})
+		b2 := blk(func(i int) bool { return i >= len(dims)-2 })
+		cr.guard("Dataset.ReadHyperslab(block tail)", func() error {
+			_, err := d.ReadHyperslab(&hdf5.HyperslabSelection{Start: make([]uint64, len(dims)), Count: one(), Stride: b2, Block: b2})
+			return err
+		})
 	}
 	var it *hdf5.ChunkIterator
 	cr.guard("Dataset.ChunkIterator", func() error {
